@@ -177,9 +177,37 @@ def run_lines(exe, lines, extra_args=(), timeout=3000, shards=None, ulimit_stack
         ol, rc, err = results[i]
         if ol and ol[-1] == "":
             ol = ol[:-1]
+        if len(ol) < len(ch) and not _isolating:
+            # the process died: find the case(s) that kill it by re-running the batch with a flush after
+            # every case - everything before the first missing result is valid, the first missing one is
+            # the crasher, the rest is run again
+            ol = _isolate_crashes(exe, ch, extra_args, timeout, ulimit_stack, env, rc, err)
         for j in range(len(ch)):
             merged[i + j * n] = ol[j] if j < len(ol) else ("CRASHED rc=%s %s" % (rc, err[-200:].replace("\n", " ")))
     return merged
+
+_isolating = False
+
+def _isolate_crashes(exe, ch, extra_args, timeout, ulimit_stack, env, rc, err):
+    global _isolating
+    _isolating = True
+    try:
+        out, pos, crashes = [], 0, 0
+        env2 = dict(env or {}, VERIF_FLUSH="1")
+        while pos < len(ch) and crashes < 25:
+            part = run_lines(exe, ch[pos:], extra_args=extra_args, timeout=timeout, shards=1, ulimit_stack=ulimit_stack, env=env2)
+            good = 0
+            while good < len(part) and not part[good].startswith("CRASHED rc="):
+                good += 1
+            out += part[:good]
+            pos += good
+            if pos < len(ch):
+                out.append(part[good] if good < len(part) else "CRASHED rc=%s %s" % (rc, err[-200:].replace("\n", " ")))
+                pos += 1
+                crashes += 1
+        return out
+    finally:
+        _isolating = False
 
 def modelrun(lines, **kw):
     return run_lines(os.path.join(OCAML, "modelrun"), lines, **kw)
